@@ -212,6 +212,10 @@ func (a CAct) coq(ids map[int]uint64) string {
 		return "AFailRead"
 	case "wfail":
 		return "ASetWriteFail " + coqBool(a.On)
+	case "tick":
+		// time passes (a.B milliseconds of the bubble's virtual clock). Nothing depends on time in the model: a tick is the
+		// idempotent environment action "set the write mode to what it is" (a.On is filled in by the rig)
+		return "ASetWriteFail " + coqBool(a.On)
 	}
 	panic("unknown op " + a.Op)
 }
@@ -345,6 +349,7 @@ type clientRig struct {
 	parkKey  string
 	stats    *recStats
 	payloads []int64
+	wfailOn  bool
 }
 
 func (r *clientRig) ev(s string) {
@@ -605,11 +610,16 @@ func (r *clientRig) do(a CAct) {
 	case "failread":
 		r.ep.FailRead(errInjected)
 	case "wfail":
+		r.wfailOn = a.On
 		if a.On {
 			r.ep.FailWrites(errWriteInjected)
 		} else {
 			r.ep.FailWrites(nil)
 		}
+	case "tick":
+		// virtual time: every timer that is due within the interval fires (callers' contexts are manual: no caller
+		// deadline is crossed by a tick; deadlines are explicit "expire" actions)
+		time.Sleep(time.Duration(a.B) * time.Millisecond)
 	default:
 		panic("unknown op " + a.Op)
 	}
@@ -859,6 +869,10 @@ func runClientScenario(t *testing.T, idx int, kind string, sc clientScenario, em
 					a.Env = &EnvSpec{Call: -1, Hdr: a.Env.Hdr, Status: a.Env.Status, Body: a.Env.Body, Trl: a.Env.Trl, Rst: a.Env.Rst}
 					sc.Acts[i] = a
 				}
+			}
+			if a.Op == "tick" {
+				a.On = rig.wfailOn
+				sc.Acts[i] = a
 			}
 			term = a.coq(rig.ids)
 			wd.mu.Lock()
